@@ -126,7 +126,7 @@ def reproduce(pkg, c, timeout_ms=10000):
     elif c['kind'] == 'unwind':
         ok = bool(r.get('timeout'))
     elif c['kind'] == 'exit':
-        ok = False if 'ret' in r else True
+        ok = not ('ret' in r or 'error' in r)
     else:
         ok = False
     return ok, r
@@ -267,7 +267,9 @@ def main(mod):
             if kf:
                 matched.setdefault(kf[0]['key'], kf[0])
             continue
-        ok, nr = reproduce(mod.PKG, c, timeout_ms=getattr(mod, 'REPLAY_TIMEOUT_MS', 10000))
+        if hasattr(mod, 'replay_args'):
+            c = dict(c, args=mod.replay_args(c))
+        ok, nr = reproduce(getattr(mod, 'PKG_OF', {}).get(c['func'], mod.PKG), c, timeout_ms=getattr(mod, 'REPLAY_TIMEOUT_MS', 10000))
         if not ok:
             mismatches.append((c, nr))
             continue
